@@ -34,9 +34,10 @@ LEVEL_NOTE = ("Trusted base: sim/world.py, sim/node.py, spec/frames.py. Pools ar
 QUICK_WORKERS = 4
 WORKERS = 14
 
-STATES = ('open', 'noconn', 'shutdown', 'error', 'lost', 'orphan')
+STATES = ('open', 'noconn', 'shutdown', 'error', 'lost', 'orphan', 'building')
 TRIGGERS = ('async', 'execute', 'set_keyspace')
 USE_RE = re.compile(r'\s*use\s+("?)ks2\1\s*;?\s*$', re.I)
+INIT_USE_RE = re.compile(r'\s*use\s+"ks1"\s*;?\s*$', re.I)
 
 KNOWN_SKIP = "hostconnection-set-keyspace-callback-skipped-when-shutdown-or-connectionless"
 KNOWN_LAST = "session-keyspace-switch-reports-only-last-pool-errors"
@@ -57,7 +58,7 @@ def systematic_cases(max_nodes):
 
 def random_case(rng):
     n = rng.choice([1, 2, 2, 3, 3, 4])
-    weights = [6, 2, 2, 2, 2, 2]
+    weights = [6, 2, 2, 2, 2, 2, 2]
     return {'proto': rng.choice([2, 3, 4]), 'states': tuple(rng.choices(STATES, weights)[0] for _ in range(n)),
             'trigger': rng.choice(TRIGGERS), 'timeout': rng.choice([None, None, 10.0, 3.0]), 'init_ks': rng.choice([None, 'ks1']),
             'order': rng.randrange(24), 'core': rng.choice([1, 2]), 'sys': False}
@@ -123,6 +124,12 @@ def run_history(seed, case):
             if plan.get(uid) == 'silent':
                 return ('silence',)
             return ('hold', r[1]) if plan.get(uid) == 'hold' else r
+        if state[a] == 'building' and build_mark.get(a) is not None and cstate.conn.sim_id >= build_mark[a] and cstate.conn.sim_creator == 'pool-init' \
+                and INIT_USE_RE.match(q) and not build_held.get(a) and build_open[0]:
+            # the pool that on_up is building for this host: the answer to its initial USE <initial keyspace> is kept back
+            build_held[a] = True
+            r = node.default_reaction(cstate, req)
+            return ('hold', r[1])
         m = USE_RE.match(q)
         if not m:
             return None
@@ -147,6 +154,17 @@ def run_history(seed, case):
         if hold_mode and internal and old and holding[0]:
             return ('hold', r[1])
         return r
+
+    build_mark = {}                 # address -> connections created from this id on belong to the pool being rebuilt
+    build_held = {}
+
+    build_open = [True]
+
+    def release_initial_use():
+        build_open[0] = False           # from now on nothing is kept back any more
+        for h in list(env.net.held):
+            if not h.done and INIT_USE_RE.match(h.req.get('query') or ''):
+                h.release()
 
     def release_handshakes():
         for h in list(env.net.held):
@@ -183,6 +201,9 @@ def run_history(seed, case):
         hosts = dict((h.endpoint.address, h) for h in cluster.metadata.all_hosts())
         if len(session._pools) != n or set(hosts) != set(addrs):
             R['skip'] = 'connect did not create every pool'
+            release_initial_use()
+            release_handshakes()
+            w.settle(advance=False)
             cluster.shutdown()
             w.settle(until=w.now + 30)
             return R, env
@@ -201,6 +222,30 @@ def run_history(seed, case):
             return pool
 
         # ---- drive the pools into their states
+        # state 'building': the host went down, its reconnection succeeded and on_up is building a new pool whose initial USE <initial keyspace>
+        # is not answered yet (the session has no pool for the host meanwhile); without an initial keyspace there is nothing to wait for and the
+        # state is an ordinary open pool after a down/up cycle
+        R['building_pools'] = 0
+        for a in addrs:
+            if state[a] == 'building':
+                build_mark[a] = len(env.net.conns) + 0
+                kill_pool(session, a)
+                build_mark[a] = len(env.net.conns)
+        if any(state[a] == 'building' for a in addrs):
+            w.advance_to(w.now + 2.3)
+            w.settle(advance=False)
+            with w.inspect():
+                for a in addrs:
+                    if state[a] != 'building':
+                        continue
+                    pool = session._pools.get(hosts[a])
+                    if case['init_ks']:
+                        if pool is not None or not build_held.get(a):
+                            R['skip'] = 'state building not reached'
+                        else:
+                            R['building_pools'] += 1
+                    elif pool is None or pool.is_shutdown:
+                        R['skip'] = 'state building not reached'
         R['orphan_pools'] = 0
         if orphan_active:
             for a in orphan_nodes:
@@ -234,6 +279,9 @@ def run_history(seed, case):
                 if not ok:
                     R['skip'] = 'state shutdown not reached'
         if R['skip']:
+            release_initial_use()
+            release_handshakes()
+            w.settle(advance=False)
             cluster.shutdown()
             w.settle(until=w.now + 30)
             return R, env
@@ -273,6 +321,7 @@ def run_history(seed, case):
             acts = [('release', h) for h in pending] + [('lose', c) for c in lost_conns]
             if orphan_active:
                 acts += [('borrow', a) for a in orphan_nodes]        # a request to that host: the pool starts replacing its connection
+            acts += [('init_use', h) for h in env.net.held if not h.done and INIT_USE_RE.match(h.req.get('query') or '')]
             if rng.random() < 0.4:
                 acts += [('handshake', h) for h in env.net.held if not h.done and h.req['op'] == 'OPTIONS']     # the replacement may finish in the middle
             perms = None
@@ -289,6 +338,8 @@ def run_history(seed, case):
                         errors_answered.append({'node': obj.node.address, 'conn': obj.conn.sim_id, 'internal': True, 'how': 'error'})
                     obj.release()
                 elif kind == 'handshake':
+                    obj.release()
+                elif kind == 'init_use':
                     obj.release()
                 elif kind == 'borrow':
                     session.execute_async(uid_query(next(uid_counter)), host=hosts[obj], timeout=5.0)
@@ -309,6 +360,7 @@ def run_history(seed, case):
                     h.release()
                 w.settle(advance=False)
             holding[0] = False
+            release_initial_use()
             if not outcome and rng.random() < 0.5:
                 w.settle(until=w.now + 2.0)
             release_handshakes()
@@ -339,6 +391,9 @@ def run_history(seed, case):
             with w.inspect():
                 R['owed'] = [(h.node.address, h.conn.sim_id) for h in env.net.held if not h.done and not h.conn.is_closed and USE_RE.match(h.req.get('query') or '')]
             R['trace'] = tuple(x[:2] for x in w.trace)
+            release_initial_use()
+            release_handshakes()
+            w.settle(advance=False)
             cluster.shutdown()
             w.settle(until=w.now + 30)
             return R, env
@@ -358,6 +413,7 @@ def run_history(seed, case):
         t_end = w.now
         # ---- let replacements / reconnections finish
         mute.clear()
+        release_initial_use()
         release_handshakes()
         w.settle(until=w.now + 40.0)
         R['checked_conns'] = 0
@@ -409,6 +465,9 @@ def run_history(seed, case):
                                 stale_info(conn, a, pool)))
         R['trace'] = tuple(x[:2] for x in w.trace)
         R['uses'] = len(use_log)
+        release_initial_use()
+        release_handshakes()
+        w.settle(advance=False)
         cluster.shutdown()
         w.settle(until=w.now + 30)
     return R, env
@@ -608,7 +667,7 @@ def run(ctx):
     from vlib.run import Inconclusive
     from sim.world import WorldLimit
     ctx.rule = ("a case is one history: protocol (v2 pools with 1-2 connections / v3+ single-connection pools), 1-4 pools each in a state from "
-                "{open, no connection, shut down, USE error, USE swallowed then connection lost, past its orphan threshold and replaced while the USE is outstanding}, trigger (execute_async with held answers released "
+                "{open, no connection, shut down, USE error, USE swallowed then connection lost, past its orphan threshold and replaced while the USE is outstanding, being rebuilt by on_up with its initial USE outstanding}, trigger (execute_async with held answers released "
                 "in a chosen order / execute / set_keyspace with chooser-picked delivery order), request timeout (none or finite), initial keyspace; "
                 "every fourth history instead runs 2-3 consecutive switches on one session with all pools open (same target repeated after a failed attempt, "
                 "A->B->A, A->B->C; per switch and node the keyspace is accepted or refused) and applies (a)(b)(c) after every switch; "
@@ -717,6 +776,7 @@ def run(ctx):
             ctx.count("probe_requests_located_on_the_wire", R['probes'])
             ctx.count("connections_lost_and_replaced_after_success", R['replaced_after'])
             ctx.count("successful_switches_with_orphan_threshold_replacement_during_the_switch", 1 if R.get('orphan_pools') else 0)
+            ctx.count("successful_switches_while_a_pool_was_waiting_for_its_initial_use", 1 if R.get('building_pools') else 0)
         else:
             ctx.count("switches_reporting_error")
             if "OperationTimedOut" in repr(R['outcome'][2]) and any(not c['called_back'] for c in R['calls']):
@@ -743,4 +803,4 @@ def run(ctx):
     ctx.floor_counters = {"histories": 60, "pool_callbacks_observed": 60, "successful_switches": 15, "switches_reporting_error": 15,
                           "connections_checked_after_success": 25, "probe_requests_located_on_the_wire": 25,
                           "sequence_histories": 15, "sequence_switches_repeating_a_target_that_failed_before": 5, "sequence_connections_checked_after_success": 15,
-                          "pools_in_state_noconn": 10, "pools_in_state_orphan": 10, "successful_switches_with_orphan_threshold_replacement_during_the_switch": 3, "pools_in_state_shutdown": 10, "pools_in_state_error": 10, "pools_in_state_lost": 10}
+                          "pools_in_state_noconn": 10, "pools_in_state_orphan": 10, "pools_in_state_building": 10, "successful_switches_while_a_pool_was_waiting_for_its_initial_use": 3, "successful_switches_with_orphan_threshold_replacement_during_the_switch": 3, "pools_in_state_shutdown": 10, "pools_in_state_error": 10, "pools_in_state_lost": 10}
